@@ -12,6 +12,7 @@ import (
 	"os"
 	"sort"
 	"strings"
+	"time"
 
 	"golang.org/x/tools/go/ssa"
 )
@@ -100,6 +101,9 @@ type Explorer struct {
 	NoPoolHavoc bool
 	NoIfConvert bool
 	Forced      map[string]int // nondetChoice values fixed from the command line (sharding)
+	Deadline    time.Time      // wall-clock budget of this run
+	ViolationGrace time.Duration // keep exploring this long after the first violation candidate
+	firstViolation time.Time
 	Progress    bool
 
 	// options
@@ -198,6 +202,17 @@ func (e *Explorer) Explore(run func() (panicked bool, pval string)) {
 			return
 		}
 		if len(e.Violations) >= e.Lim.MaxViolations {
+			return
+		}
+		if e.Deadline != (time.Time{}) && time.Now().After(e.Deadline) {
+			if len(e.Violations) == 0 {
+				e.inconclusive(fmt.Sprintf("time budget exhausted with %d paths pending", len(e.pending)))
+			}
+			// with violation candidates in hand the run stops here: they are
+			// replayed and reported; the unexplored rest cannot unmake them.
+			return
+		}
+		if len(e.Violations) > 0 && e.ViolationGrace > 0 && time.Since(e.firstViolation) > e.ViolationGrace {
 			return
 		}
 		n := len(e.pending) - 1
@@ -552,6 +567,9 @@ func (e *Explorer) violation(msg string, m *Model) {
 			}
 			e.KnownHit[k.Harness+"|"+k.Check] = true
 		}
+	}
+	if len(e.Violations) == 0 {
+		e.firstViolation = time.Now()
 	}
 	e.Violations = append(e.Violations, v)
 }
